@@ -67,3 +67,18 @@ var props = map[string]*propCfg{
 		Thorough:    plan{Builds: []buildCfg{{Race: false, Share: 3}, {Race: true, Share: 1}}, Secs: 600},
 	},
 }
+
+func init() {
+	props["C18"] = &propCfg{
+		Level:       "exploration",
+		Rule:        "a scenario is a seeded (lazy-capable type, content, optional legal non-minimal rewriting, 2-4 reader scripts of 1-6 read-only operations, scheduling strategy); every atomic/lock operation of the real code is a pre-emption point; non-trivial = at least one context switch inside an operation; distinct by hash of the switch signature (sequence of (from-client, yield kind, to-client))",
+		Assumptions: commonAssumptions,
+		Components:  comps(),
+		Clauses:     "no data race, no panic, single instance per lazy submessage across all clients and access routes, every result equal to the sequential result (exact for getters, Has, reflection, Equal, Clone, CheckInitialized, deterministic Marshal/Size, JSON, text, Merge-from; for Size and non-deterministic Marshal: no error and output decodes to the content, exact length on minimal encodings), no deadlock/livelock",
+		NotDecided:  "executions that are neither sequentially consistent nor flagged by the race detector (none exist for race-free Go programs)",
+		Probes:      []string{"cas-lost", "same-addr-cas-by-two-clients", "paths-observed", "denormalised-inside-lazy"},
+		FaultKinds:  []string{"sched-switch", "denormalised-wire"},
+		Quick:       plan{Builds: []buildCfg{{Race: true, Share: 1}}, Secs: 30},
+		Thorough:    plan{Builds: []buildCfg{{Race: true, Share: 3}, {Race: false, Share: 2}, {Race: true, Tags: []string{"protoopaque"}, Share: 1}}, Secs: 900},
+	}
+}
